@@ -97,6 +97,8 @@ pub struct RunResult {
     pub results: Vec<String>,
     /// host log without `reg` lines and without finalize batches (for pairwise comparisons)
     pub host_log: Vec<String>,
+    /// the same including the (sorted) finalize batches of persist / discard / drop
+    pub host_log_full: Vec<String>,
     /// pm/ps lines at each persist
     pub persisted: Vec<String>,
     /// indices (into lines) of rejected events
@@ -109,6 +111,9 @@ pub fn run_lines(lines: &[String], oracles: bool) -> RunResult {
     let mut max_level = None;
     let mut sys = Sys::new(None);
     let mut poisoned = false;
+    // a span id re-announced while alive: outside the proviso of C06, so the bookkeeping-based
+    // oracles (C02, C03, C04, C06, C09) no longer apply; C07 / C08 are claimed for every stream
+    let mut wild = false;
     let mut seg_start = 0usize; // index of first line of the current lifetime segment
     let mut discarded: Option<(usize, Vec<String>)> = None; // (seg_start, segment lines) of last discard
     let mut had_loss = false;
@@ -123,7 +128,10 @@ pub fn run_lines(lines: &[String], oracles: bool) -> RunResult {
     macro_rules! fail {
         ($($arg:tt)*) => {
             if oracles && !poisoned {
-                rr.out.fails.push(format!($($arg)*));
+                let msg = format!($($arg)*);
+                if !wild || msg.starts_with("C07") || msg.starts_with("C08") {
+                    rr.out.fails.push(msg);
+                }
             }
         };
     }
@@ -206,9 +214,16 @@ pub fn run_lines(lines: &[String], oracles: bool) -> RunResult {
                 rr.results.push(tok.clone());
                 rr.out.obs.extend(delta.iter().cloned());
                 rr.host_log.extend(delta.iter().filter(|l| !l.starts_with("c reg ")).cloned());
+                rr.host_log_full.extend(delta.iter().filter(|l| !l.starts_with("c reg ")).cloned());
 
                 // ---- oracles
-                let reasons = sys.spec.invalid(&e);
+                if let Ev::NewSpan { id, .. } = &e {
+                    if sys.spec.alive.contains_key(id) && !wild {
+                        wild = true;
+                        rr.out.tags.push("wild:reannounce-while-alive".into());
+                    }
+                }
+                let reasons = if wild { vec![] } else { sys.spec.invalid(&e) };
                 match &res {
                     Err(_) => {
                         fail!("C06 try_receive panicked on `{}`", e.tok());
@@ -223,7 +238,12 @@ pub fn run_lines(lines: &[String], oracles: bool) -> RunResult {
                     Ok(Err(_)) => {
                         rr.rejected.push(i);
                         rr.out.tags.push(format!("reject:{}", tok.split(' ').nth(2).unwrap_or("?")));
-                        if reasons.is_empty() {
+                        if !delta.is_empty() && wild {
+                            fail!("C07 rejected event `{}` still reached the host: {}", e.tok(), delta.join(" ; "));
+                        }
+                        if wild {
+                            // nothing else can be judged without the bookkeeping
+                        } else if reasons.is_empty() {
                             let k = if had_loss { "C03" } else { "C06" };
                             fail!("{k} valid event rejected: `{}` -> {tok}", e.tok());
                             fail!("C06 valid event rejected: `{}` -> {tok}", e.tok());
@@ -239,7 +259,7 @@ pub fn run_lines(lines: &[String], oracles: bool) -> RunResult {
                         }
                     }
                 }
-                if matches!(res, Ok(Ok(()))) && reasons.is_empty() && oracles {
+                if matches!(res, Ok(Ok(()))) && reasons.is_empty() && oracles && !wild {
                     let used: Option<(u64, usize)> = match &e {
                         Ev::NewSpan { mt, .. } => delta.iter().find(|l| l.starts_with("c new ")).and_then(|l| l.split(' ').nth(3)).and_then(|m| m[1..].parse().ok()).map(|i| (*mt, i)),
                         Ev::NewEvent { mt, .. } => delta.iter().find(|l| l.starts_with("c evt ")).and_then(|l| l.split(' ').nth(2)).and_then(|m| m[1..].parse().ok()).map(|i| (*mt, i)),
@@ -260,7 +280,7 @@ pub fn run_lines(lines: &[String], oracles: bool) -> RunResult {
                         }
                     }
                 }
-                if matches!(res, Ok(Ok(()))) && reasons.is_empty() {
+                if matches!(res, Ok(Ok(()))) && reasons.is_empty() && !wild {
                     // presentation bookkeeping (C03, C08)
                     let st = sys.host.state.lock().unwrap();
                     let news: Vec<_> = st.news[news_before..].to_vec();
@@ -377,6 +397,7 @@ pub fn run_lines(lines: &[String], oracles: bool) -> RunResult {
                         let mut delta = sys.host.take_log();
                         delta.sort();
                         rr.out.obs.extend(delta.iter().cloned());
+                        rr.host_log_full.extend(delta.iter().cloned());
                         let sk = sys.host.state.lock().unwrap().stack_line();
                         rr.out.obs.push(sk);
                         let (pml, psl) = (pm_line(&pm_text), ps_line(&ps_text));
@@ -460,6 +481,7 @@ pub fn run_lines(lines: &[String], oracles: bool) -> RunResult {
                         let mut delta = sys.host.take_log();
                         delta.sort();
                         rr.out.obs.extend(delta.iter().cloned());
+                        rr.host_log_full.extend(delta.iter().cloned());
                         let sk = sys.host.state.lock().unwrap().stack_line();
                         rr.out.obs.push(sk);
                         let stack_now = sys.host.state.lock().unwrap().stack.clone();
@@ -523,9 +545,9 @@ pub fn run_lines(lines: &[String], oracles: bool) -> RunResult {
         if !rr.rejected.is_empty() {
             let filtered: Vec<String> = lines.iter().enumerate().filter(|(k, _)| !rr.rejected.contains(k)).map(|(_, l)| l.clone()).collect();
             let fr = run_lines(&filtered, false);
-            if fr.host_log != rr.host_log {
-                let k = fr.host_log.iter().zip(&rr.host_log).position(|(a, b)| a != b).unwrap_or(fr.host_log.len().min(rr.host_log.len()));
-                rr.out.fails.push(format!("C07 host observation differs from the stream without the rejected events at call #{k}: `{}` vs `{}`", rr.host_log.get(k).map_or("<end>", String::as_str), fr.host_log.get(k).map_or("<end>", String::as_str)));
+            if fr.host_log_full != rr.host_log_full {
+                let k = fr.host_log_full.iter().zip(&rr.host_log_full).position(|(a, b)| a != b).unwrap_or(fr.host_log_full.len().min(rr.host_log_full.len()));
+                rr.out.fails.push(format!("C07 host observation differs from the stream without the rejected events at call #{k}: `{}` vs `{}`", rr.host_log_full.get(k).map_or("<end>", String::as_str), fr.host_log_full.get(k).map_or("<end>", String::as_str)));
             }
             if fr.persisted != rr.persisted {
                 rr.out.fails.push("C07 persisted state differs from the stream without the rejected events".into());
@@ -775,8 +797,12 @@ impl Suite for Receiver {
         if focus == "C09" {
             return gen_c09(rng);
         }
+        if matches!(focus, "C07" | "C08") && idx % 6 == 5 {
+            return gen_unknown_site_after_restore(rng);
+        }
         let kind = match focus {
-            "C06" | "C07" => [0, 1, 1, 3][idx % 4],
+            "C06" => [0, 1, 1, 3][idx % 4],
+            "C07" | "C08" => [0, 1, 7, 3, 7][idx % 5],
             "C04" => [0, 2, 2, 4][idx % 4],
             "C02" => [0, 0, 5][idx % 3],
             "C03" => [0, 3, 3][idx % 3],
@@ -809,15 +835,22 @@ impl Suite for Receiver {
             }
             _ => {
                 for k in 0..len {
-                    let invalid = kind == 1 && rng.chance(1, 5);
-                    if invalid {
+                    let invalid = (kind == 1 || kind == 7) && rng.chance(1, 5);
+                    if kind == 7 && rng.chance(1, 8) && !g.spans.is_empty() {
+                        // re-announce an alive span id, possibly with an unknown call site / dead parent
+                        let ids: Vec<u64> = g.spans.keys().copied().collect();
+                        let id = *rng.pick(&ids);
+                        let mt = if rng.chance(1, 2) { 7000 + rng.below(3) as u64 } else { g.sites.keys().next().copied().unwrap_or(7000) };
+                        let parent = if rng.chance(1, 3) { Some(900 + rng.below(3) as u64) } else { None };
+                        lines.push(format!("ev {}", Ev::NewSpan { id, parent, mt, values: vec![] }.tok()));
+                    } else if invalid {
                         g.invalid_op(rng, &mut lines);
                     } else {
                         let wide = kind == 1 && rng.chance(1, 10);
                         g.wf_op(rng, &mut lines, wide);
                     }
                     let cut = match kind {
-                        0 | 1 => rng.chance(1, 8),
+                        0 | 1 | 7 => rng.chance(1, 8),
                         2 | 4 => rng.chance(1, 6),
                         5 => rng.chance(1, 5),
                         _ => false,
@@ -862,6 +895,47 @@ impl Suite for Receiver {
     fn run(&self, lines: &[String]) -> Outcome {
         run_lines(lines, true).out
     }
+}
+
+/// Out-of-proviso region for C07 / C08 (claimed for every stream): a span whose call site the
+/// receiver does not know (re-announced while alive with an unknown call site, then the local map
+/// is lost), events on it being rejected, the call site announced later, and an abort.
+fn gen_unknown_site_after_restore(rng: &mut Rng) -> Vec<String> {
+    let mut lines = vec![];
+    let site = gen::site(rng, Some(true), 3);
+    let (a, b) = (10u64, 7000 + rng.below(3) as u64);
+    lines.push(format!("ev {}", Ev::NewCallSite { id: a, site: site.clone() }.tok()));
+    let n = rng.range(1, 3) as u64;
+    for id in 1..=n {
+        lines.push(format!("ev {}", Ev::NewSpan { id, parent: None, mt: a, values: vec![] }.tok()));
+    }
+    let victim = rng.range(1, n as usize) as u64;
+    for _ in 0..rng.below(3) {
+        lines.push(format!("ev ent {victim}"));
+        lines.push(format!("ev ext {victim}"));
+    }
+    lines.push(format!("ev {}", Ev::NewSpan { id: victim, parent: None, mt: b, values: vec![] }.tok()));
+    lines.push((*rng.pick(&["h persist lose", "h persist losenew"])).to_owned());
+    let mut tail = vec![
+        format!("ev ent {victim}"),
+        format!("ev {}", Ev::Recorded { id: victim, values: vec![] }.tok()),
+        format!("ev {}", Ev::NewCallSite { id: b, site: { let mut s2 = site.clone(); s2.name.push('b'); s2 } }.tok()),
+        format!("ev ent {victim}"),
+        format!("ev ext {victim}"),
+    ];
+    if rng.chance(1, 3) {
+        tail.swap(0, 1);
+    }
+    if rng.chance(1, 4) {
+        tail.insert(1, format!("ev ent {victim}"));
+    }
+    lines.extend(tail);
+    if rng.chance(1, 2) {
+        lines.push("ev ent 1".into());
+    }
+    lines.push((*rng.pick(&["h persist keep", "h discard", "h persist lose"])).to_owned());
+    lines.push(format!("ev drp {victim}"));
+    lines
 }
 
 /// C09: descriptions differing in exactly one attribute, repeated announcements under different
